@@ -4,7 +4,7 @@
 From Coq Require Import NArith List Bool.
 From Verif Require Import Common.Bytes Codec.ChainId.
 From Verif Require Import P2P.Frame P2P.FrameProofs P2P.Handshake P2P.HandshakeProofs
-  P2P.BlockId P2P.BlockIdProofs.
+  P2P.Inbound P2P.InboundProofs P2P.BlockId P2P.BlockIdProofs.
 Import ListNotations.
 Open Scope N_scope.
 
@@ -219,6 +219,45 @@ Theorem C18_handshake_v031_only_if_no_better : forall l versions st,
   ~ In v200 versions /\ ~ In v033 versions /\ ~ In v032 versions /\ In v031 versions.
 Proof. exact handshake_v031_only_if_no_better. Qed.
 Print Assumptions C18_handshake_v031_only_if_no_better.
+
+(** * Framing and status checks composed (receiveRemoteStatus + checkRemoteStatus) *)
+
+(** A status is delivered only from a stream that starts with a complete StatusRequest
+    frame of at most max payload bytes. *)
+Theorem C18_receive_status_shape : forall max s payload rest,
+  receive_remote_status max s = RecvStatus payload rest ->
+  blen payload <= max /\
+  s = take header_len s ++ payload ++ rest /\
+  be_decode (sub 0 4 (take header_len s)) = sp_status_request.
+Proof. exact receive_status_shape. Qed.
+Print Assumptions C18_receive_status_shape.
+
+(** For every protobuf decoder: an inbound handshake over a byte stream that completes at
+    a version other than 0.3.1 was with a peer whose status (carried in a well-formed frame
+    within the size limit) has the local genesis, the connection's peer id and the local
+    chain id. *)
+Theorem C18_inbound_ok_same_chain : forall (decode : bytes -> option status) max l versions s v st rest,
+  inbound decode max l versions s = InOk v st rest -> v <> v031 ->
+  (exists payload, receive_remote_status max s = RecvStatus payload rest /\
+                   decode payload = Some st /\ blen payload <= max) /\
+  st_genesis st = l_genesis l /\ st_peer_id st = l_peer_id l /\
+  exists rc, chain_id_read (st_chain_id st) = Some rc /\
+    (rc = l_chain_id_at l (st_best_height st) \/ rc = l_static_chain_id l).
+Proof. exact inbound_ok_same_chain. Qed.
+Print Assumptions C18_inbound_ok_same_chain.
+
+Theorem C18_inbound_never_reads_panic : forall (decode : bytes -> option status) max l versions s,
+  inbound decode max l versions s <> InNotStatus (RecvReadError RPanic).
+Proof. exact inbound_never_reads_panic. Qed.
+Print Assumptions C18_inbound_never_reads_panic.
+
+(** A truncated header or an oversized first frame never yields a handshake. *)
+Theorem C18_inbound_bad_frame_refused : forall (decode : bytes -> option status) max l versions s,
+  (blen s < header_len \/
+   (header_len <= blen s /\ max < be_decode (sub 4 8 (take header_len s)))) ->
+  forall v st rest, inbound decode max l versions s <> InOk v st rest.
+Proof. exact inbound_bad_frame_refused. Qed.
+Print Assumptions C18_inbound_bad_frame_refused.
 
 (** * Block identity (types/blockchain.go BlockHash, chain/chainhandle.go addBlock) *)
 
